@@ -343,8 +343,10 @@ class HplPattern(HplAstObject):
     def __str__(self) -> str:
         t = ''
         if self.max_time < INF:
-            if self.max_time < 1.0:
-                t = f' within {self.max_time * 1000}ms'
+            ms = self.max_time * 1000
+            # only use milliseconds when the parser's ms -> s conversion restores the same float
+            if self.max_time < 1.0 and ms / 1000.0 == self.max_time:
+                t = f' within {ms}ms'
             else:
                 t = f' within {self.max_time}s'
         if self.pattern_type.is_existence:
